@@ -469,6 +469,8 @@ class SymNum:
         raise Unsupported("symbolic exponent")
 
     def __abs__(self):
+        if self.im is not None and not is_z3(self.im) and self.im == 0:
+            return abs(SymNum.wrap(self.re))
         if self.im is not None:
             return sym_sqrt(SymNum.wrap(_padd(_pmul(self.re, self.re), _pmul(self.im, self.im))))
         return ite(self >= 0, self, -self)
@@ -724,7 +726,11 @@ def sym_sqrt(x):
         import math
 
         return math.sqrt(p[0])
-    return apply_uf("sqrt", x)
+    r = apply_uf("sqrt", x)
+    # defining facts of the principal square root (instantiated at this application)
+    xr = to_z3_real(p[0])
+    ctx().assume(z3.And(r.re >= 0, z3.Implies(xr >= 0, r.re * r.re == xr)), "axiom:sqrt")
+    return r
 
 
 def sym_round(x):
@@ -1014,6 +1020,11 @@ class Ctx:
                     break
                 for d in divs:
                     divisors[d.get_id()] = d
+                for x in getattr(ringnf.identity, "last_nonneg", []):
+                    rr, _, _ = self._z3_check(hyps, x < 0, Z3_TIMEOUT_MS)
+                    if rr != z3.unsat:
+                        ok = False
+                        break
             if ok:
                 side_ok = True
                 for d in divisors.values():
@@ -1134,6 +1145,10 @@ class Ctx:
                 return False
             for d in divs:
                 divisors[d.get_id()] = d
+            for x in getattr(ringnf.identity, "last_nonneg", []):
+                rr, _, _ = self._z3_check(hyps, x < 0, Z3_TIMEOUT_MS)
+                if rr != z3.unsat:
+                    return False
         for d in divisors.values():
             rr, _, _ = self._z3_check(hyps, d == 0, Z3_TIMEOUT_MS)
             if rr != z3.unsat:
